@@ -89,7 +89,7 @@ def write_dataset(d, ds, naming='ks', col1=False, id_dtype=np.int32, time_dtype=
         np.save(d / ('spike_%s.npy' % name), np.asarray(arr))
     for fname, text in (tsv or {}).items():
         (d / fname).write_text(text)
-    ncdat = len(ds['chmap'])
+    ncdat = int(ds.get('ncdat') or len(ds['chmap']))      # raw channel count (may exceed the channel map)
     dat = None
     if ds.get('raw') is not None:
         raw = np.asarray(ds['raw'], dtype=np.int16)
